@@ -15,6 +15,7 @@ import GV.Eval.ValThm
 import GV.Eval.LowerThm
 import GV.Eval.FactsParams
 import GV.Generated.Math
+import GV.Generated.Listener
 namespace GV.Props.C01
 open GV.Eval
 
@@ -115,5 +116,11 @@ example :
     let e : RE := .log 1 .and (.cmp 1 .gt (.ar 1 .add (.lit 1 (.i .int64 1)) (.ar 1 .mul (.lit 1 (.i .int64 2)) (.lit 1 (.i .int64 3)))) (.lit 1 (.i .int64 6)))
       (.not 1 (.lit 1 (.b false)))
     e.WF = true := by decide
+
+/-- `@name`, `@desc` and `@sal` are the enclosing rule's own: the listener clears what it remembers
+    of the previous rule's header when it enters a rule (regenerated from `EnterRuleEntity`), so a rule
+    without a description or salience clause reads the empty string and 0, not its predecessor's. -/
+theorem C01_rule_header_reset :
+    GV.Generated.Listener.ruleEntityResets = ["g.ruleDescription = \"\"", "g.ruleName = \"\"", "g.salience = 0"] := by decide
 
 end GV.Props.C01
